@@ -333,6 +333,27 @@ fn main() {
         }
         t
     });
+    // S8: interior zero runs of every length x every number of extra trailing zeros: the digits 1 0^r 1 (and
+    // 12 0^r 345) written with k = 0..K extra zeros, at scales that put the run before / across / after the point;
+    // any block-wise treatment of zeros is aligned differently in each member of the family
+    let rmax8: usize = tier.pick(80, 200);
+    let kmax8: u64 = tier.pick(70, 140);
+    run.bound("S8_interior_zero_runs", format!("1..={}", rmax8));
+    run.bound("S8_extra_trailing_zeros", format!("0..={}", kmax8));
+    run.par("S8 interior zero runs x extra trailing zeros", rmax8, |ri| {
+        let r = ri + 1;
+        let mut t = Tally::default();
+        for (head, tail) in [("1", "1"), ("12", "345")] {
+            let n = big(&format!("{}{}{}", head, "0".repeat(r), tail));
+            for s in [(r + tail.len()) as i128, 3, -2, (r + tail.len() + 40) as i128] {
+                for sign in [1, -1] {
+                    let base = Dec { n: &n * sign, s };
+                    check_family(&run, &family(&base, 0..=kmax8), &mut t);
+                }
+            }
+        }
+        t
+    });
     // S5: slices / Vec of decimals: element-wise value-equal sequences must feed identical data too
     // (Hash::hash_slice is part of the same trait impl)
     let seq_pool: Vec<Vec<Dec>> = vec![
